@@ -40,7 +40,7 @@ if __name__ == "__main__":
             if ob.result == "valid":
                 print("  !!! CANARY PROVED (inconsistent path):", ob.name)
             continue
-        if ob.result != "valid" or "-a" in sys.argv:
+        if ob.result != "valid" or "-a" in sys.argv or (ob.time or 0) > 8:
             print(f"  [{ob.result}] {ob.name} ({ob.backend}, {ob.time:.2f}s) {ob.clause[:100]} {ob.info.get('reason','')}")
     real = [o for o in eng.obligations if o.kind != "canary"]
     n = len(real)
